@@ -92,7 +92,7 @@ def resize_jobs(tier):
     for (r, c, f, pa, ma, fa) in pre:
         for z in (0, 1):
             for (nr, nc, nf) in new:
-                d = ["-DVERIF_BUILTIN_MEM", "-DVD_R_MAX=3", "-DVD_F_MAX=3"] + shape(r, c, f, pa, ma, fa, z) + \
+                d = ["-DVD_R_MAX=3", "-DVD_F_MAX=3"] + shape(r, c, f, pa, ma, fa, z) + \
                     ["-DH_FIX_NEW", "-DH_NEW_ROWS=%d" % nr, "-DH_NEW_COLUMNS=%d" % nc, "-DH_NEW_FREQS=%d" % nf]
                 b = "concrete shape %dx%dx%d (alloc %d/%d/%d) -> %dx%dx%d; values, type symbolic" % (
                     r, c, f, pa, ma, fa, nr, nc, nf)
@@ -109,7 +109,7 @@ def resize_jobs(tier):
         af += [(1, 1, 1, 1, 1, 1), (0, 0, 0, 0, 0, 0), (1, 1, 2, 1, 1, 2)]
     for (r, c, f, pa, ma, fa) in af:
         for z in (0, 1):
-            d = ["-DVERIF_BUILTIN_MEM", "-DVD_R_MAX=1", "-DVD_F_MAX=2", "-DVD_FA_MAX=51"] + shape(r, c, f, pa, ma, fa, z)
+            d = ["-DVD_R_MAX=1", "-DVD_F_MAX=2", "-DVD_FA_MAX=51"] + shape(r, c, f, pa, ma, fa, z)
             J.append(V.Job("add_frequency.%s" % tag(d), H, "h_add_frequency", SRCS, defines=d, unwind=52,
                            union_struct=True, kind="bounded", canary=(f == 1 and fa == 2),
                            functions=["vnadata_add_frequency", "_vnadata_extend_f"],
